@@ -95,6 +95,24 @@ def p1_p2(ctx, fx, I, B):
     if not marker_calls:
         ctx.missing("C05.P1", "subtree", "%s does not process children through the recursive marker" % B.name)
         return
+    # every member / element is processed: an iteration of the builder's walk cannot end without passing the recursive marker (the value then
+    # goes into a disclosure or into the visible container, judged below), and the walk is over the claims as they are (no filtering,
+    # skipping or reordering adaptor): a `null` / empty member that is passed over is missing from the issued payload
+    mblocks = [b for (b, _) in marker_calls]
+    for lp in next_loops(B):
+        body = set()
+        for d_ in lp.body_entries:
+            body |= cfg.reachable(B, [d_], removed_blocks=[lp.bb])
+        if not any(b in body for b in mblocks):
+            continue
+        line_ = B.term(lp.bb).get("line")
+        drop = [a for (_, ad) in lp.sources() for a in ad if a in ("filter", "filter_map", "skip", "take", "step_by", "rev", "skip_while", "take_while", "map_while", "chain", "flat_map", "peekable")]
+        skipped = any(lp.bb in cfg.reachable(B, [d_], removed_blocks=mblocks) for d_ in lp.body_entries)
+        if drop or skipped:
+            ctx.finding("C05.P1", B, "child-accounted", "the builder's walk can pass over a member / element without processing it (%s): it is then missing from the issued payload altogether "
+                        "(neither visible nor disclosable)" % ("the claims are iterated through %s" % drop if drop else "an iteration can end before the recursive call"), line=line_)
+        else:
+            ctx.ok("C05.P1", B, "child-accounted", "every iteration of the walk passes the recursive marker; the claims are iterated as they are", line=line_)
     sdk = []
     for (bb, tt, ft, c) in bool_switches(B):
         if c.kind == "call" and c.d["term"].get("resolved_local") and (B.local_ty(c.d["term"]["dest"]["local"]) == "bool") and len(c.kids) == 2 and peel(c.kids[0]).kind == "param":
